@@ -19,8 +19,9 @@ import (
 // at every event and exit of every path of every stack operation.
 
 type fsClient struct {
-	p   *Program
-	rep *fsRules
+	lockFaults bool // second pass of C08: O_EXCL creates may fail with errors other than EEXIST
+	p          *Program
+	rep        *fsRules
 	// resolved anchors
 	stackT, additionT, readerT, mergedT, writerT *types.Named
 	listField, dirField                          string
@@ -55,6 +56,14 @@ func newFsRules() *fsRules {
 }
 
 func (c *fsClient) violate(st *State, rule, key string, pos token.Pos, msg string) {
+	if c.lockFaults {
+		// only the lock-ownership rules are evaluated on acquisition-fault paths,
+		// and only on paths on which an acquisition actually failed that way
+		if rule != "LOCK-OWN" || !c.g(st).isSet("acqFault") {
+			return
+		}
+		key += " (after an acquisition that failed with an error other than EEXIST)"
+	}
 	k := rule + " / " + key
 	if c.faults {
 		c.rep.adv = append(c.rep.adv, "advisory (I/O fault model): "+k+": "+msg)
@@ -74,7 +83,7 @@ func (c *fsClient) violate(st *State, rule, key string, pos token.Pos, msg strin
 }
 
 func (c *fsClient) okay(rule, key, note string) {
-	if c.faults {
+	if c.faults || c.lockFaults {
 		return
 	}
 	c.rep.mark(rule, c.entry)
@@ -1010,8 +1019,17 @@ func (c *fsClient) openFile(x *Exec, st *State, fr *Frame, site ssa.CallInstruct
 		if k == kListLock {
 			g.setFlag("validated", nil)
 		}
+		outs := []CallOut{{St: st, Val: tupleOf(h, tNil)}, {St: s2, Val: tupleOf(tNil, errT("EEXIST"))}}
+		if c.lockFaults {
+			// the create can also fail for a reason that says nothing about the
+			// lock (EMFILE, ENOSPC, EACCES): nothing was acquired
+			s3 := s2.clone()
+			c.g(s3).setFlag("acqFault", tTrue)
+			s3.note(pos, "event: O_EXCL create of %s %s fails with another error (e.g. EMFILE): nothing acquired", k, p)
+			outs = append(outs, CallOut{St: s3, Val: tupleOf(tNil, errT("EOTHER"))})
+		}
 		c.note(st, pos, "acquire %s %s", k, p)
-		return []CallOut{{St: st, Val: tupleOf(h, tNil)}, {St: s2, Val: tupleOf(tNil, errT("EEXIST"))}}
+		return outs
 	}
 	if fok && fl&(c.oCreate|c.oWrite) != 0 {
 		if k == kList {
